@@ -357,3 +357,5 @@ T('C05', 'mwem-sigma-respelled', [(MWEM, "        sigma = np.sqrt(0.5 / (alpha*r
 # ------------------------------------------------------------------ every property: the reformatted tree must give the same verdict
 for _p in ['C01', 'C02', 'C04', 'C05', 'C06', 'C07', 'C08', 'C09', 'C10', 'C13', 'C14', 'C15', 'C16', 'C18', 'C19', 'C20']:
     MUTANTS.append({'prop': _p, 'id': 'reformatted-tree', 'kind': 'T', 'edits': 'REFORMAT'})
+K('C08', 'setup-stale-marginals', [(INF, "        model.potentials = CliqueVector.zeros(self.domain, model.cliques)\n        model.potentials.combine(self.structural_zeros)", "        model.potentials = CliqueVector.zeros(self.domain, model.cliques)\n        model.marginals = model.belief_propagation(model.potentials)\n        model.potentials.combine(self.structural_zeros)")], 'pair-at-exit')
+T('C08', 'setup-marginals-in-sync', [(INF, "            model.potentials.combine(self.model.potentials)\n        self.model = model  ", "            model.potentials.combine(self.model.potentials)\n        model.marginals = model.belief_propagation(model.potentials)\n        self.model = model  ")])
